@@ -767,4 +767,106 @@ theorem nodeRun_finv (e : Pool.Epoch) (ops : List NodeOp) (sent : List Votor.Out
     simp only [nodeRunOuts, nodeRun, ← List.append_assoc]
     exact ih _ _ (nodeStep_finv e sent n op i hok.1) hok.2
 
+/-! ### the broadcasts of a run are exactly the `.out` items of Votor's log, in order -/
+
+/-- the broadcasts recorded in a log (newest first), oldest first -/
+def outsOf (L : List Votor.Item) : List Votor.Out :=
+  L.reverse.filterMap (fun i => match i with
+    | .out o => some o
+    | .ev _ => none)
+
+theorem outsOf_append (a b : List Votor.Item) : outsOf (a ++ b) = outsOf b ++ outsOf a := by
+  unfold outsOf; rw [List.reverse_append, List.filterMap_append]
+
+theorem newOuts_eq {before after : Votor.V} {ys : List Votor.Item} (h : after.log = ys ++ before.log) :
+    newOuts before after = outsOf ys := by
+  unfold newOuts outsOf
+  rw [h]
+  simp only [List.length_append, Nat.add_sub_cancel, List.take_left']
+  congr 1
+
+theorem votorStep_outs (n : Node) (ve : Votor.Event) :
+    outsOf (votorStep n ve).1.votor.log = outsOf n.votor.log ++ (votorStep n ve).2 := by
+  unfold votorStep
+  split
+  · simp
+  · rcases Votor.step_log n.votor ve with hs | ⟨xs, hl, _⟩
+    · simp only [hs, newOuts_self, List.append_nil]
+    · have hl' : (Votor.step n.votor ve).log = (xs ++ [.ev ve]) ++ n.votor.log := by rw [hl]; simp
+      show outsOf (Votor.step n.votor ve).log = _ ++ newOuts n.votor (Votor.step n.votor ve)
+      rw [newOuts_eq hl', hl', outsOf_append]
+
+theorem enqueue_votor (n : Node) (evs : List Pool.Event) : (enqueue n evs).votor = n.votor := by
+  unfold enqueue; split <;> rfl
+
+theorem nodeStep_outs (n : Node) (op : NodeOp) :
+    outsOf (nodeStep n op).votor.log = outsOf n.votor.log ++ nodeOuts n op := by
+  cases op with
+  | recvVote v =>
+    simp only [nodeStep, nodeOuts, List.append_nil, recvVote]
+    split
+    · rfl
+    · rw [enqueue_votor]
+  | recvCert c =>
+    simp only [nodeStep, nodeOuts, List.append_nil, recvCert]
+    split
+    · rfl
+    · rw [enqueue_votor]
+  | poolBlock b par =>
+    simp only [nodeStep, nodeOuts, List.append_nil, poolBlock]
+    split
+    · rfl
+    · rw [enqueue_votor]
+  | pump =>
+    simp only [nodeStep, nodeOuts, pump]
+    split
+    · simp
+    · split
+      · exact votorStep_outs _ _
+      · simp
+  | votorBlock s b => exact votorStep_outs n _
+  | firstShred s => exact votorStep_outs n _
+  | invalidBlock s => exact votorStep_outs n _
+  | timeout s => exact votorStep_outs n _
+  | timeoutCrashed s => exact votorStep_outs n _
+
+/-- the `.out` items of the log after a run = those before it, then the broadcasts of the run in order -/
+theorem nodeRun_outs (ops : List NodeOp) (n : Node) :
+    outsOf (nodeRun n ops).votor.log = outsOf n.votor.log ++ nodeRunOuts n ops := by
+  induction ops generalizing n with
+  | nil => simp [nodeRun, nodeRunOuts]
+  | cons op ops ih => simp only [nodeRun, nodeRunOuts]; rw [ih, nodeStep_outs, List.append_assoc]
+
+/-- a position in the broadcast list is a position in the log -/
+theorem outsOf_split {L : List Votor.Item} {pre post : List Votor.Out} {x : Votor.Out} (h : outsOf L = pre ++ x :: post) :
+    ∃ a b, L = a ++ .out x :: b ∧ outsOf b = pre := by
+  unfold outsOf at h
+  obtain ⟨l1, l2, hl, h1, h2⟩ := List.filterMap_eq_append_iff.mp h
+  obtain ⟨m1, z, m2, hm, hnone, hz, _⟩ := List.filterMap_eq_cons_iff.mp h2
+  have hz' : z = .out x := by
+    cases z with
+    | ev ev => cases hz
+    | out o => simp only [Option.some.injEq] at hz; rw [hz]
+  subst hz'
+  refine ⟨m2.reverse, (l1 ++ m1).reverse, ?_, ?_⟩
+  · have := congrArg List.reverse hl
+    rw [List.reverse_reverse] at this
+    rw [this, hm]; simp
+  · unfold outsOf
+    rw [List.reverse_reverse, List.filterMap_append, h1]
+    have : List.filterMap (fun i => match i with | Votor.Item.out o => some o | Votor.Item.ev _ => none) m1 = [] :=
+      List.filterMap_eq_nil_iff.mpr hnone
+    rw [this, List.append_nil]
+
+theorem mem_outsOf {L : List Votor.Item} {o : Votor.Out} : o ∈ outsOf L ↔ Votor.Item.out o ∈ L := by
+  unfold outsOf
+  constructor
+  · intro h
+    obtain ⟨i, hi, hio⟩ := List.mem_filterMap.mp h
+    cases i with
+    | ev x => cases hio
+    | out o' => simp only [Option.some.injEq] at hio; subst hio; exact List.mem_reverse.mp hi
+  · intro h
+    exact List.mem_filterMap.mpr ⟨.out o, List.mem_reverse.mpr h, rfl⟩
+
 end AgModel.NodePanic
